@@ -37,6 +37,7 @@ package atree
 //@ lemma monoCS(a *ArrayMetaDataSlab, i int, j int) induction j  serves C01 C05
 //@   requires wfMeta(a) && 0 <= i && i <= j && j < len(a.childrenCountSum)
 //@   ensures a.childrenCountSum[i] <= a.childrenCountSum[j] && (i < j ==> a.childrenCountSum[i] < a.childrenCountSum[j])
+//@   trigger { a.childrenCountSum[i], a.childrenCountSum[j] }
 
 //@ func (a *ArrayMetaDataSlab) childSlabIndexInfo(index) (chi, adjusted, childID, err)  serves C01 C18
 //@   requires wfMeta(a)
@@ -108,3 +109,25 @@ package atree
 //@        a.childrenCountSum[0] == a.childrenHeaders[0].count &&
 //@        (forall k :: 1 <= k && k < i ==> a.childrenCountSum[k] == a.childrenCountSum[k - 1] + a.childrenHeaders[k].count) &&
 //@        baseCountSum == old(a.header.count) + ite(i > leftSlabChildrenCount, old(as(slab, *ArrayMetaDataSlab).childrenCountSum)[i - leftSlabChildrenCount - 1], 0)
+
+//@ func (a *ArrayMetaDataSlab) Split(storage) (left, right, err)  serves C01 C05 C06 C09
+//@   requires wfMeta(a) && storage != nil && a.header.size > maxThreshold && a.header.size <= maxThreshold + 14
+//@   uses monoCS
+//@   ensures err != nil ==> categorised(err)
+//@   ensures err == nil ==> left == a && is(right, *ArrayMetaDataSlab) && fresh(right)
+//@   ensures[C01] err == nil ==> len(a.childrenHeaders) + len(as(right, *ArrayMetaDataSlab).childrenHeaders) == len(old(a.childrenHeaders)) &&
+//@        (forall k :: 0 <= k && k < len(a.childrenHeaders) ==> a.childrenHeaders[k] == old(a.childrenHeaders)[k]) &&
+//@        (forall k :: 0 <= k && k < len(as(right, *ArrayMetaDataSlab).childrenHeaders) ==> as(right, *ArrayMetaDataSlab).childrenHeaders[k] == old(a.childrenHeaders)[len(a.childrenHeaders) + k])
+//@   ensures[C01] err == nil ==> a.header.count + as(right, *ArrayMetaDataSlab).header.count == old(a.header.count)
+//@   ensures[C05] err == nil ==> inBandMeta(a) && inBandMeta(as(right, *ArrayMetaDataSlab))
+//@   ensures[C06] err == nil ==> wfMeta(a) && wfMeta(as(right, *ArrayMetaDataSlab)) && as(right, *ArrayMetaDataSlab).extraData == nil
+//@   ensures[C09] err == nil ==> a.header.slabID == old(a.header.slabID) && as(right, *ArrayMetaDataSlab).header.slabID.address == old(a.header.slabID.address) &&
+//@        as(right, *ArrayMetaDataSlab).header.slabID != SlabIDUndefined && sto[as(right, *ArrayMetaDataSlab).header.slabID] == nil
+//@   modifies a.childrenHeaders, a.childrenCountSum, a.header, ghost.touched, alloc
+//@   loop 1: invariant 0 <= i && i <= leftChildrenCount && leftChildrenCount <= len(a.childrenHeaders) && leftCount == ite(i > 0, a.childrenCountSum[i - 1], 0) &&
+//@        (i < len(a.childrenHeaders) ==> a.childrenCountSum[i] == leftCount + a.childrenHeaders[i].count)
+//@   loop 2: invariant 0 <= i && i <= len(rightSlab.childrenCountSum) && len(rightSlab.childrenCountSum) == len(rightSlab.childrenHeaders) &&
+//@        countSum == ite(i > 0, rightSlab.childrenCountSum[i - 1], 0) &&
+//@        countSum == ite(i > 0, old(a.childrenCountSum)[leftChildrenCount + i - 1] - leftCount, 0) &&
+//@        (i > 0 ==> rightSlab.childrenCountSum[0] == rightSlab.childrenHeaders[0].count) &&
+//@        (forall k :: 1 <= k && k < i ==> rightSlab.childrenCountSum[k] == rightSlab.childrenCountSum[k - 1] + rightSlab.childrenHeaders[k].count)
